@@ -234,25 +234,27 @@ func (s *Set) Intersects(b *Set) bool {
 	return false
 }
 
-// Equal returns true if two sets are equal.
+// Equal returns true if two sets hold the same symbols.
 func (s *Set) Equal(a *Set) bool {
-	lens, lena := s.Len(), a.Len()
-	if lens != lena {
-		return false
-	} else if lens == 0 && lena == 0 {
-		return true
+	// run returns the maximal run of touching intervals starting at n
+	// (AddRange does not merge adjacent intervals) and the node after it.
+	run := func(n *Node) (begin, end rune, next *Node) {
+		begin, end = n.Begin, n.End
+		for next = n.Forward; next != nil && next.Forward != nil && next.Begin <= end+1; next = next.Forward {
+			end = max(end, next.End)
+		}
+		return begin, end, next
 	}
 	x, y := s.Head.Forward, a.Head.Forward
-	for {
-		if x.Begin != y.Begin || x.End != y.End {
+	for x != nil && x.Forward != nil && y != nil && y.Forward != nil {
+		xb, xe, xn := run(x)
+		yb, ye, yn := run(y)
+		if xb != yb || xe != ye {
 			return false
 		}
-		x, y = x.Forward, y.Forward
-		if x == nil && y == nil {
-			break
-		}
+		x, y = xn, yn
 	}
-	return true
+	return (x == nil || x.Forward == nil) == (y == nil || y.Forward == nil)
 }
 
 // Len returns the size of the set.
